@@ -1637,6 +1637,8 @@ func (c *Ctx) fromFileField(v ssa.Value, f *types.Var) bool {
 	return false
 }
 
+// sameFieldLoad: two loads of the same field of the same object (go/ssa does no CSE, so
+// identity is decided on the access path of the address).
 func (c *Ctx) sameFieldLoad(a, b ssa.Value) bool {
 	la, ok1 := a.(*ssa.UnOp)
 	lb, ok2 := b.(*ssa.UnOp)
@@ -1645,7 +1647,14 @@ func (c *Ctx) sameFieldLoad(a, b ssa.Value) bool {
 	}
 	fa, ok1 := la.X.(*ssa.FieldAddr)
 	fb, ok2 := lb.X.(*ssa.FieldAddr)
-	return ok1 && ok2 && fieldOfAddr(fa) == fieldOfAddr(fb) && fa.X == fb.X
+	if !(ok1 && ok2 && fieldOfAddr(fa) == fieldOfAddr(fb)) {
+		return false
+	}
+	if fa.X == fb.X {
+		return true
+	}
+	pa, pb := c.accessPath(fa, nil), c.accessPath(fb, nil)
+	return pa == pb && !strings.Contains(pa, "?") && !strings.Contains(pa, "[]")
 }
 
 // checkFdBound: ownership typestate over the rotation step.
